@@ -6,6 +6,7 @@ from the repo's source) against the two declarative semantics of Model/C08Sem.le
 import MxlVerif.Lemmas.C08Roundtrip
 import MxlVerif.Lemmas.C08Compartment
 import MxlVerif.Lemmas.C08RoundtripFrom
+import MxlVerif.Lemmas.C08Full
 import MxlVerif.Lemmas.C08Total
 import MxlVerif.Model.C17Doc
 namespace Mxl.C08
@@ -513,6 +514,48 @@ theorem C08_write_roundtrip (I : Interp) (m : PyModel) (o : Option (List (String
     rw [pyRhs_eq] at hv
     rw [docRhs_eq]
     exact rhs_list I hE (fnsFree_of_wellNamed hw) st hst x hE.rxns (fun _ h => h) v hv
+
+/-- **What `write` does with the options that carry no number.**  For a well-named model and any options: the model id,
+    the unit definitions and the modifiers are ADDED to the document of `writeModel` — components, compartments and species
+    attributes are those of `writeModel` (so `C08_write_roundtrip` holds for the full `write`); every reaction lists as
+    modifiers exactly the arguments of its rate function that are variables and not in its stoichiometry, each of them a
+    species the document declares, none of them a reactant or product. -/
+theorem C08_write_full (m : PyModel) (cs : Option (List (String × Rat))) (o : WriteOpts) (dc : SDocC)
+    (hw : wellNamed m = true) (h : writeModelFull m cs o = .ok dc) :
+    (∃ dc0, writeModel m cs = .ok dc0 ∧ dc.doc = dc0.doc ∧ dc.compartments = dc0.compartments ∧ dc.species = dc0.species) ∧
+    dc.modifiers = m.rxns.map (fun rx => (rx.name, modifiersOf m rx)) ∧
+    (∀ rm ∈ dc.modifiers, ∀ s ∈ rm.2, s ∈ dc.doc.species.map (·.1)) ∧
+    (∀ rx ∈ m.rxns, ∀ k ∈ modifiersOf m rx, k ∉ rx.stoich.map (·.1)) := by
+  obtain ⟨dc0, mods, mid, h0, hm, _, rfl⟩ := writeModelFull_parts h
+  have hw' := hw
+  simp only [wellNamed, Bool.and_eq_true, List.all_eq_true] at hw'
+  obtain ⟨⟨⟨⟨⟨⟨hplain, _⟩, _⟩, _⟩, _⟩, _⟩, _⟩ := hw'
+  have hmods : mods = m.rxns.map (fun rx => (rx.name, modifiersOf m rx)) := by
+    have : exportModifiers m = .ok (m.rxns.map (fun rx => (rx.name, modifiersOf m rx))) := by
+      unfold exportModifiers
+      apply mapE_ok_of_forall
+      intro rx hrx
+      have hn : isPlainName rx.name = true := hplain rx.name (rxn_name_mem hrx)
+      have hin : mapE (fun k => escapeId k prefixRefSpecies) (modifiersOf m rx) = .ok ((modifiersOf m rx).map fun k => k) := by
+        apply mapE_ok_of_forall
+        intro k hk
+        have hv := (modifiersOf_spec m rx k hk).2.1
+        have : k ∈ m.names := by unfold PyModel.names; simp only [List.mem_append]; exact .inl (.inl (.inr hv))
+        exact escapeId_plain _ (hplain k this)
+      simp [escapeId_plain _ hn, hin, bind, Except.bind, pure, Except.pure]
+    rw [this] at hm
+    exact (Except.ok.inj hm).symm
+  refine ⟨⟨dc0, h0, rfl, rfl, rfl⟩, hmods, ?_, ?_⟩
+  · intro rm hrm s hs
+    simp only [hmods, List.mem_map] at hrm
+    obtain ⟨rx, _, rfl⟩ := hrm
+    have hv := (modifiersOf_spec m rx s hs).2.1
+    exact (C08_write_roundtrip (fun _ _ => none) m cs dc0 hw h0).1 s hv
+  · intro rx _ k hk
+    exact (modifiersOf_spec m rx k hk).2.2
+
+/-- the model id can always be written (the name is never empty: it ends in `_<date>`) -/
+theorem C08_model_id_total (o : WriteOpts) : ∃ id, modelId o = .ok id := modelId_total o
 
 /-- no dangling compartment (F-C08-15): every species is written, with the compartment of each being one of
     the compartments the file declares; a model with variables has exactly one species entry per species. -/
